@@ -90,6 +90,13 @@ PROPS["C11"] = dict(engine="E12", level="exploration",
    level_text="Seeded exploration over (tree x victim x moment x mechanism): after closing the victim every node of its subtree has Done() closed and Events() closed after its buffered events; every other node is still open and functional (caches follow the server, filtered nodes equal filter(parent), subscribers and monitors keep receiving).",
    design_ref="DESIGN.md 5.11", technique="runtime monitoring: lifecycle oracle over every node after closing each node in turn, plus functional (convergence/mirror) oracles on the survivors, in virtual time")
 
+PROPS["C12"] = dict(engine="E13", level="fault_enumeration",
+   rule="shutdown-point enumeration: seeded scenarios (real controller over the fake server, tree of 7-14 nodes of all kinds, 14 workload steps of mutations / Refilter / tree growth / sleeps across relists) in 5 hard states {plain, lists slower than the period, Watch() blocked until cancelled alternating with closing streams, flapping watch (error/close), never ready (first list outstanding)} x trigger in {Close, Close x3, Close x5 concurrently, context cancel, list error} fired after every workload step (quick: every other) and from INSIDE the logger point number 1+k*N/K for k<K (quick K=24, thorough K=160; N = number of logger points of that scenario, measured by a dry run in the same case); 4 goroutines race Subscribe/Clone/SubscribeWithFilter/CloneForFilter with the trigger. distinct = (scenario, state, trigger, fire point); non-trivial = the run reached the post-Done census and API-call phase.",
+   assumptions=["precondition of the property: the fake client's List/Watch return as soon as their context is cancelled", "bounded time = 1h of virtual time (plus 2 periods for the list-error trigger, which needs the next list to happen)"],
+   floors={"any": {"terminations": 400, "post-done-api-calls": 10000, "racing-calls": 1000, "set:trigger-points": 15}},
+   level_text="Fault enumeration over shutdown points: for each trigger point the oracles are Done()/Close() within bounded virtual time, empty goroutine census (kcache/go-lifecycle frames) after a quiescence barrier, every API call on every node after Done returning ErrNotRunning or a value without blocking, objects obtained late or by racing calls becoming done themselves, and no panic (a crash kills the child process and is attributed to the started case).",
+   design_ref="DESIGN.md 5.12", technique="runtime monitoring with shutdown-point enumeration (logger-point failpoints), goroutine census, bounded-progress in synctest virtual time, race detector on")
+
 ENGINES = {
  "E1": dict(path="harness/engines/e01_cache_test.go", kind="direct drive of the cache actor vs reference model R-cache; exhaustive small universe + random walks"),
  "E4": dict(path="harness/engines/e04_converge_test.go", kind="real controller over fault-injecting fake API server; convergence oracles at virtual-time quiescence"),
@@ -102,5 +109,6 @@ ENGINES = {
  "E9": dict(path="harness/engines/e09_ready_test.go", kind="exhaustive readiness-order enumeration on filtered subscriptions/clones"),
  "E11": dict(path="harness/engines/e11_slow_test.go", kind="stalled/slow consumers at every tree position; healthy vs stalled stream oracles"),
  "E12": dict(path="harness/engines/e12_cascade_test.go", kind="every node of random trees closed in turn at several moments; subtree/complement lifecycle oracle"),
+ "E13": dict(path="harness/engines/e13_termination_test.go", kind="shutdown-point enumeration over seeded workloads; census and post-Done API oracles"),
 }
 NA = {}
